@@ -649,6 +649,9 @@ func finish(pc *ParentCtx, start time.Time) int {
 	if p.Exhaustive != nil && p.Exhaustive(pc.Tier) {
 		cover["exhaustive"] = true
 	}
+	if p.ExhaustiveSubspaces != nil {
+		cover["exhaustive_subspaces"] = p.ExhaustiveSubspaces(pc.Tier)
+	}
 	for k, v := range pc.Info {
 		cover[k] = v
 	}
